@@ -613,6 +613,23 @@ Proof.
   unfold v0_wf_kvp, v0_der_kv, lenN in *. cbn [fst snd length]. lia.
 Qed.
 
+Lemma kvp_single ty v : v0_len_ok v0_MaxValLen v = true -> v0_wf_kvp ([b8 ty], v).
+Proof.
+  unfold v0_len_ok. intro H. unfold v0_wf_kvp, v0_MaxKeyLen, lenN in *. cbn [fst snd length]. lia.
+Qed.
+Lemma sig_kv_wf s : v0_wf_sig valid_pk valid_sig s = true -> v0_wf_kvp (v0_sig_kv s).
+Proof.
+  unfold v0_wf_sig, v0_len_ok. rewrite !andb_true_iff. intros [[_ A] B].
+  unfold v0_wf_kvp, v0_sig_kv, lenN in *. cbn [fst snd length]. lia.
+Qed.
+Lemma unk_kv_wf u : v0_wf_unk u = true -> v0_wf_kvp (v0_unk_kv u).
+Proof.
+  unfold v0_wf_unk, v0_len_ok. rewrite !andb_true_iff. intros [[A B] C].
+  unfold v0_wf_kvp, v0_unk_kv, lenN in *. cbn [fst snd]. destruct (uk_key u); [discriminate|]. cbn [length] in *. lia.
+Qed.
+Lemma sighash_kv_wf x : v0_wf_kvp ([b8 v0_T_Sighash], le_enc 4 x).
+Proof. unfold v0_wf_kvp, v0_MaxKeyLen, v0_MaxValLen, lenN. cbn [fst snd length]. rewrite le_enc_length. lia. Qed.
+
 Lemma in_kvs_wf i : v0_wf_in_core valid_pk valid_sig i = true -> Forall v0_wf_kvp (v0_in_kvs i).
 Proof.
   destruct i as [nwu wu sigs sh rd ws ders fs fw unk].
@@ -624,25 +641,20 @@ Proof.
   match goal with H : forallb (v0_wf_der _) ders = true, H' : v0_nodupb _ (map dv_pk ders) = true |- _ =>
     destruct (sorted_ders_ok ders H H') as [DS _] end.
   repeat (apply Forall_app; split).
-  - destruct nwu as [t|]; [|constructor]. unfold v0_wf_nwu, v0_len_ok in *. btrue'.
-    constructor; [|constructor]. unfold v0_wf_kvp, v0_MaxKeyLen, lenN in *. cbn [fst snd length]. lia.
-  - destruct wu as [o|]; [|constructor]. unfold v0_wf_wu, v0_len_ok in *. btrue'.
-    constructor; [|constructor]. unfold v0_wf_kvp, v0_MaxKeyLen, lenN in *. cbn [fst snd length]. lia.
+  - destruct nwu as [t|]; [|constructor]. unfold v0_wf_nwu in *. btrue'.
+    constructor; [|constructor]. apply kvp_single; assumption.
+  - destruct wu as [o|]; [|constructor]. unfold v0_wf_wu in *. btrue'.
+    constructor; [|constructor]. apply kvp_single; assumption.
   - destruct (v0_finalized _); [constructor|]. repeat (apply Forall_app; split).
-    + apply Forall_map_kv. intros s Hs. rewrite forallb_forall in SS. specialize (SS s Hs).
-      unfold v0_wf_sig, v0_len_ok in SS. rewrite !andb_true_iff in SS. destruct SS as [[_ A] B].
-      unfold v0_wf_kvp, v0_sig_kv, lenN in *. cbn [fst snd length]. lia.
-    + destruct (sh =? 0); [constructor|]. constructor; [|constructor].
-      unfold v0_wf_kvp, v0_MaxKeyLen, v0_MaxValLen, lenN. cbn [fst snd length]. rewrite le_enc_length. lia.
+    + apply Forall_map_kv. intros s Hs. rewrite forallb_forall in SS. apply sig_kv_wf. apply SS; exact Hs.
+    + destruct (sh =? 0); [constructor|]. constructor; [|constructor]. apply sighash_kv_wf.
     + apply opt_kv_wf; assumption.
     + apply opt_kv_wf; assumption.
     + apply Forall_map_kv. intros d Hd. rewrite forallb_forall in DS. apply der_kv_wf. apply DS; exact Hd.
   - apply opt_kv_wf; assumption.
   - apply opt_kv_wf; assumption.
   - apply Forall_map_kv. intros u Hu.
-    match goal with H : forallb v0_wf_unk unk = true |- _ => rewrite forallb_forall in H; specialize (H u Hu); rename H into WU end.
-    unfold v0_wf_unk, v0_len_ok in WU. rewrite !andb_true_iff in WU. destruct WU as [[A B] C].
-    unfold v0_wf_kvp, v0_unk_kv, lenN in *. cbn [fst snd]. destruct (uk_key u); [discriminate|]. cbn [length] in *. lia.
+    match goal with H : forallb v0_wf_unk unk = true |- _ => rewrite forallb_forall in H; apply unk_kv_wf; apply H; exact Hu end.
 Qed.
 
 Lemma out_kvs_wf o : v0_wf_out valid_pk o = true -> Forall v0_wf_kvp (v0_out_kvs o).
@@ -663,3 +675,82 @@ Lemma out_section_app o rest : v0_wf_out valid_pk o = true ->
 Proof. intros W. apply v0_section_app; [apply out_kvs_wf; exact W | apply out_fold; assumption]. Qed.
 
 End Sections.
+
+(* ---------- the whole packet ---------- *)
+Lemma v0_sections_app {St A X} (p : parser St) (e : A -> bytes) (f : A -> St) (l : list A) :
+  (forall a, In a l -> forall r, p (e a ++ r) = Some (f a, r)) ->
+  forall (xs : list X) rest, length l = length xs ->
+  v0_sections p xs (concat (map e l) ++ rest) = Some (map f l, rest).
+Proof.
+  induction l as [|a l IH]; intros Hp xs rest L; destruct xs as [|x xs]; try discriminate; [reflexivity|].
+  cbn [map concat v0_sections]. unfold bind. rewrite <- app_assoc. rewrite Hp by (left; reflexivity).
+  rewrite IH; [reflexivity | intros; apply Hp; right; assumption | cbn [length] in L; lia].
+Qed.
+
+Lemma v0_sections_length {St X} (p : parser St) (xs : list X) : forall bs l rest,
+  v0_sections p xs bs = Some (l, rest) -> length l = length xs.
+Proof.
+  induction xs as [|x xs IH]; intros bs l rest; cbn [v0_sections]; unfold bind, ret.
+  - intro HH; inversion HH; reflexivity.
+  - destruct (p bs) as [[a r]|]; [|discriminate]. destruct (v0_sections p xs r) as [[b r']|] eqn:E; [|discriminate].
+    intro HH; inversion HH; subst. cbn [length]. f_equal. apply (IH _ _ _ E).
+Qed.
+
+Lemma v0_sane_norm i : v0_sane i = true -> v0_sane (v0_norm_in i) = true.
+Proof.
+  destruct i as [nwu wu sigs sh rd ws ders fs fw unk]. unfold v0_sane, v0_norm_in, v0_finalized.
+  cbn [vi_nwu vi_wu vi_wscript vi_fwit vi_fsig].
+  destruct nwu, wu, ws, fs, fw; cbn; intro H; try discriminate; reflexivity.
+Qed.
+
+Section Packet.
+Variable valid_pk valid_sig : bytes -> bool.
+Notation parse := (v0_parse valid_pk valid_sig).
+Notation wf := (v0_wf valid_pk valid_sig).
+Notation wf_core := (v0_wf_core valid_pk valid_sig).
+
+Lemma wf_core_parts p : wf_core p = true ->
+  wf_tx (vp_tx p) = true /\ v0_unsigned_ok (vp_tx p) = true /\ lenN (ser_full (vp_tx p)) <= v0_MaxValLen /\
+  length (vp_ins p) = length (t_ins (vp_tx p)) /\ length (vp_outs p) = length (t_outs (vp_tx p)) /\
+  forallb (v0_wf_in_core valid_pk valid_sig) (vp_ins p) = true /\ forallb v0_sane (vp_ins p) = true /\
+  forallb (v0_wf_out valid_pk) (vp_outs p) = true.
+Proof.
+  unfold v0_wf_core, v0_len_ok. rewrite !andb_true_iff. intros [[[[[[[A B] C] D] E] F] G] H].
+  apply Nat.eqb_eq in D, E. apply N.leb_le in C. repeat split; assumption.
+Qed.
+
+(* C08, first clause: what ToHex/ToBase64 write is accepted by the parsers and yields the packet
+   up to v0_norm, whatever follows the last section *)
+Theorem v0_parse_ser p extra : wf p = true ->
+  exists bs, v0_ser p = Some bs /\ parse (bs ++ extra) = Some (v0_norm p).
+Proof.
+  unfold v0_wf. intro W. apply andb_true_iff in W as [WC W45].
+  apply wf_core_parts in WC as (Wt & Wu & Wl & Li & Lo & Wi & Ws & Wo).
+  unfold v0_ser. rewrite Ws. eexists. split; [reflexivity|].
+  unfold v0_parse, bind. rewrite <- !app_assoc.
+  rewrite (take_app_n 5) by reflexivity.
+  change (bytes_eqb v0_magic v0_magic) with true. cbn [negb].
+  unfold v0_ser_section at 1, v0_global_kvs, enc_list. cbn [map concat]. unfold v0_kv at 1. cbn [fst snd].
+  rewrite <- !app_assoc.
+  rewrite v0_p_key_app by (unfold lenN, v0_MaxKeyLen; cbn [length]; lia).
+  rewrite n8_b8_small by (unfold v0_T_UnsignedTx; lia).
+  change (negb (v0_T_UnsignedTx =? v0_T_UnsignedTx)) with false. cbn iota.
+  rewrite v0_p_val_app by exact Wl.
+  rewrite (v0_parse_tx_value_ser _ Wt).
+  change (v0_unsigned_ok (norm_tx (vp_tx p))) with (v0_unsigned_ok (vp_tx p)). rewrite Wu. cbn [negb].
+  cbn [app].
+  change (v0_sep ++ ?x) with (v0_ser_section [] ++ x).
+  rewrite (v0_section_app (v0_gunk_step) [] [] [] _ (Forall_nil _) eq_refl).
+  change (t_ins (norm_tx (vp_tx p))) with (t_ins (vp_tx p)).
+  change (t_outs (norm_tx (vp_tx p))) with (t_outs (vp_tx p)).
+  rewrite (v0_sections_app _ (fun i => v0_ser_section (v0_in_kvs i)) v0_norm_in (vp_ins p)); [| | exact Li].
+  2:{ intros i Hi r. rewrite forallb_forall in Wi, W45. apply in_section_app; [apply Wi | apply W45]; exact Hi. }
+  rewrite (v0_sections_app _ (fun o => v0_ser_section (v0_out_kvs o)) v0_norm_out (vp_outs p)); [| | exact Lo].
+  2:{ intros o Ho r. rewrite forallb_forall in Wo. apply out_section_app; apply Wo; exact Ho. }
+  assert (SN : forallb v0_sane (map v0_norm_in (vp_ins p)) = true).
+  { apply forallb_forall. intros x Hx. apply in_map_iff in Hx as [i [<- Hi]].
+    apply v0_sane_norm. rewrite forallb_forall in Ws. apply Ws; exact Hi. }
+  rewrite SN. reflexivity.
+Qed.
+
+End Packet.
